@@ -281,6 +281,12 @@ func init() {
 						return
 					case "fatalnil":
 						t.Fatal(nil)
+					case "foreignfailnow": // a failed assertion on the handle the scenario was set up with, made by an iteration
+						setupT0.FailNow()
+					case "paniccyclic": // a panic value that contains itself
+						m := map[string]any{}
+						m["self"] = m
+						panic(m)
 					case "timefail": // the failure is raised inside a timed stage
 						initGlobalMetrics()
 						t.Time("stage", func() { t.FailNow() })
